@@ -182,4 +182,43 @@ def unipiMeaning (r0 r1 : Nat) : Meaning :=
   else if r0 = 0x200 then .forward 16 r1
   else .noAnswer
 
+/-! ### UniPi receive registers — pinned; the receive counter is hidden gateway state
+
+Three holding registers per bus: a free-running 16-bit counter of received frames (wraps 0xFFFF → 0), the type word
+(0x100 backward frame, 0x200 forward frame) and the data; one framing-error counter.  What an exchange denotes does
+not depend on the value of the counter. -/
+
+structure UnipiRx where
+  counter : Nat
+  typ : Nat
+  data : Nat
+
+/-- the gateway has received a frame -/
+def UnipiRx.receive (g : UnipiRx) (typ data : Nat) : UnipiRx := ⟨(g.counter + 1) % 65536, typ, data⟩
+
+/-- the registers shown at polls `i, i+1, …` (`n` of them): `events` = (index of the poll before which the frame is
+received, type, data) in order of arrival; `feAt` = poll before which a framing error is counted -/
+def unipiPolls (fe : Nat) (feAt : Option Nat) : UnipiRx → List (Nat × Nat × Nat) → Nat → Nat → List Unipi.Poll
+  | _, _, _, 0 => []
+  | g, events, i, n + 1 =>
+    let g' := (events.filter (fun e => e.1 ≤ i)).foldl (fun g e => g.receive e.2.1 e.2.2) g
+    let f := match feAt with
+      | some j => if j ≤ i then (fe + 1) % 65536 else fe
+      | none => fe
+    ⟨g'.counter, g'.typ, g'.data, f⟩ :: unipiPolls fe feAt g' (events.filter (fun e => ¬ e.1 ≤ i)) (i + 1) n
+
+/-- what the exchange denotes: a query answered by a backward frame within the six polls returns its value —
+**whatever the counter**; a Compare query during which a framing error was counted (before an answer) is answered
+"yes"; an unanswered query is "no answer"; a command that expects no reply returns the no-response marker. -/
+def unipiExchange (isQuery isCompare : Bool) (events : List (Nat × Nat × Nat)) (feAt : Option Nat) :
+    Unipi.SendResult :=
+  if !isQuery then .noResponse else
+  let reply := events.find? (fun e => e.2.1 == 0x100 && e.1 < 6)
+  let fe := if isCompare then feAt.filter (· < 6) else none
+  match reply, fe with
+  | some e, some j => if e.1 ≤ j then .response (some e.2.2) else .response (some 255)
+  | some e, none => .response (some e.2.2)
+  | none, some _ => .response (some 255)
+  | none, none => .response none
+
 end DaliVerif.Spec.Gateways
